@@ -252,6 +252,8 @@ pub struct TxEvent {
 
 struct Side {
     hc: Option<uv::HalfConnection>,
+    rtt_ref_ms: Option<f64>,
+    rtt_ref_reported: bool,
     inbox: BinaryHeap<Reverse<InFlight>>,
     next_step_ns: u64,
     last_step_ns: u64,
@@ -346,6 +348,8 @@ impl<'s> Sim<'s> {
             let hc = guarded(11, || uv::HalfConnection::new(cfg));
             Side {
                 hc: Some(hc),
+                rtt_ref_ms: None,
+                rtt_ref_reported: false,
                 inbox: BinaryHeap::new(),
                 next_step_ns: 0,
                 last_step_ns: 0,
@@ -498,6 +502,7 @@ impl<'s> Sim<'s> {
             match decode(&bytes) {
                 Some(f) => {
                     self.dirs[from].clock_ms = (self.now_ns / MS) as u32;
+                    self.dirs[from].stamp_ms = if self.sides[from].steps > 0 { (self.sides[from].last_step_ns / MS) as u32 } else { 0 };
                     self.dirs[from].on_wire(&bytes, &f);
                     if self.verbose {
                         let d = match &f {
@@ -938,6 +943,31 @@ impl<'s> Sim<'s> {
             }
         }
         self.dirs[i].on_sender_step();
+        // C14 (live): "the RTT estimate is the 0.9/0.1 moving average of the samples", where the
+        // sample of a step is the time since the newest data frame that was first acknowledged
+        // since the previous step left the sender (RFC 5348 4.3). The reference is fed from the
+        // wire times and the ack groups the boundary model accepted, not from the sender.
+        if self.twin == TwinMode::None && self.dirs[i].honest_peer {
+            if let Some(sent_ms) = self.dirs[i].fb_newest_send_ms.take() {
+                let now_ms = (self.now_ns / MS) as u32;
+                let sample = now_ms.saturating_sub(sent_ms) as f64;
+                let r = match self.sides[i].rtt_ref_ms {
+                    Some(r) => 0.9 * r + 0.1 * sample,
+                    None => sample,
+                };
+                self.sides[i].rtt_ref_ms = Some(r);
+                self.out.c.inc("live_rtt_samples_checked");
+                let got = self.sides[i].hc.as_ref().unwrap().rtt_s().map(|x| x * 1000.0);
+                let ok = got.map_or(false, |g| (g - r).abs() <= 1.5 + 1e-9 * r);
+                if !ok && !self.sides[i].rtt_ref_reported {
+                    self.sides[i].rtt_ref_reported = true;
+                    let t = self.now_ns / MS;
+                    self.viol("C14", "live-rtt-estimate", format!("side {} after step at t={} ms: RTT estimate {:?} ms, the 0.9/0.1 moving average of the samples is {:.3} ms (this step's sample: {} ms = time since the newest frame first acknowledged since the previous step was emitted, by the sender's own clock reading t={} ms)", i, t, got, r, sample, sent_ms));
+                }
+            }
+        } else {
+            self.dirs[i].fb_newest_send_ms = None;
+        }
         {
             let now = self.now_ns;
             let s = &mut self.sides[i];
@@ -1101,7 +1131,11 @@ impl<'s> Sim<'s> {
                     self.out.violations.push(Violation::new("C02", "stall", &format!("C02:stall:{}", class), format!("Reliable data not delivered: connection made no progress for {} s on a fair network; {}", since / SEC, self.diagnosis())));
                     // C12: was it the sender that stopped retransmitting an unacknowledged fragment?
                     for d in 0..2 {
-                        if let Some(m) = self.dirs[d].unacked_fragment_not_retransmitted((t / MS) as u32, (since / MS) as u32) {
+                        let empty = {
+                            let hc = self.sides[d].hc.as_ref().unwrap();
+                            hc.verif_queue_lens() == (0, 0, 0) && hc.send_buffer_size() == 0
+                        };
+                        if let Some(m) = self.dirs[d].unacked_fragment_not_retransmitted((t / MS) as u32, (since / MS) as u32, empty) {
                             let name = self.dirs[d].name;
                             self.out.violations.push(Violation::new("C12", "unacked-fragment-not-retransmitted", "C12:unacked-fragment-not-retransmitted", format!("[{}] {}", name, m)));
                         }
